@@ -620,6 +620,21 @@ def assumptions(pid):
 
 CUSTOM = {}
 
+# properties that have no theorem of their own in the Coq development yet (category "other" in the MANIFEST)
+_NOTHM = ("decided by the per-step correspondence between the real code and the Coq model (every shared-memory operation, full state "
+          "snapshot, enabled set and result after every scheduling step) plus the property's oracle on every real trace; "
+          "the invariant that would state this property over all executions of the model is not proved yet - ")
+NO_THEOREM = {
+    "C04": _NOTHM + "needs the slot/tag/pin invariant (I4-I6 of DESIGN.md section 7); the model records every payload access that is not a complete live value in its ghost field g_bad",
+    "C05": _NOTHM + "needs the ownership ledger invariant (I11); the model keeps a per-payload drop ledger (g_drops) that the correspondence compares with the real destructor calls",
+    "C06": _NOTHM + "needs the refinement of quiescent states to the reference specification (Seq.v of the design is not written)",
+    "C09": _NOTHM + "needs the refinement to the reference specification; the oracle is the reference model itself",
+    "C10": _NOTHM + "needs the stream-registry invariant (I9) and the known-finding class F11 as hypothesis",
+    "C14": _NOTHM + "needs the pending-notification invariant (I12) for both parked lists",
+    "C16": _NOTHM + "needs the epoch invariant (I10); the model flags every use of a freed object and every invalid free in g_bad, which the correspondence compares with the quarantine allocator of the harness",
+    "C17": _NOTHM + "needs the allocation inventory invariant; the model keeps the allocation ledger (live/freed) that the correspondence compares with the real allocator events",
+}
+
 # ---------------------------------------------------------------- C19: its own engine
 def c19_engine(pid, tier, seed, evid, t0, finish):
     """translator (traitscan.py -> Gen/Handles.v) + theorem over the finite domain + rustc probes"""
